@@ -77,6 +77,17 @@ def build_harness(bin="vh"):
     return os.path.join(BIN_DIR, bin)
 
 
+# SIGILL, SIGABRT, SIGBUS, SIGFPE, SIGSEGV: what a process gets from its own code (a kill from outside,
+# e.g. the OOM killer's SIGKILL or a timeout, stays a tool error)
+FATAL_SIGNALS = (4, 6, 7, 8, 11)
+
+
+class HarnessCrashed(ToolError):
+    def __init__(self, cmd, rc, stderr):
+        ToolError.__init__(self, "%s died with signal %d" % (" ".join(cmd[:3]), -rc))
+        self.cmd, self.rc, self.stderr = cmd, rc, stderr
+
+
 def run_vh(args, stdin=None, timeout=3600, env=None, check=True, bin="vh"):
     """Run a harness binary. Returns (returncode, stdout, stderr)."""
     vh = build_harness(bin)
@@ -94,6 +105,8 @@ def run_vh(args, stdin=None, timeout=3600, env=None, check=True, bin="vh"):
         return (-9, "", "timeout")
     if check and p.returncode != 0:
         log(p.stderr[-4000:])
+        if -p.returncode in FATAL_SIGNALS:
+            raise HarnessCrashed([vh] + list(args), p.returncode, p.stderr)
         raise ToolError("vh %s exited %d" % (" ".join(args[:2]), p.returncode))
     return (p.returncode, p.stdout, p.stderr)
 
@@ -331,7 +344,8 @@ def ndjson_read(path, tolerate_truncated_tail=False):
         try:
             out.append(json.loads(l))
         except ValueError:
-            if tolerate_truncated_tail and i == len(lines) - 1:
+            # a last line without its newline: the writer died in the middle of it
+            if (tolerate_truncated_tail or not l.endswith("\n")) and i == len(lines) - 1:
                 break
             raise
     return out
